@@ -510,7 +510,7 @@ def run(tier, seed):
                        "asynchronous effects are awaited with bounded polls whose expiry is inconclusive",
                        "`jobs` is asked twice before its answer is judged against /proc"]
     rng = common.rng_for(seed, "C07")
-    n = 800 if tier == "thorough" else 96
+    n = 800 if tier == "thorough" else 224
     cases = [{"seed": rng.randrange(1 << 30), "nactions": rng.randint(5, 25), "handler": rng.random() < 0.25} for _ in range(n)]
     results = common.pmap(_work, cases, init=_init, initargs=(cicada,), chunksize=1)
     acts = {}
